@@ -28,6 +28,8 @@ type Disc = evid.Disc
 type Runner struct {
 	St *backends.Stack
 	M  *Model
+	// invN counts the reads of the invariant (selects their conditional headers)
+	invN int
 	// Addr maps (bucket, rest-of-path) to the Host and path actually sent; nil =
 	// path-style on the default host. Used by C16.
 	Addr func(bucket, rest string) (host, path string)
@@ -805,9 +807,21 @@ func (r *Runner) Invariant(universeKeys []string) []Disc {
 				continue
 			}
 			seen[k] = true
-			resp := r.do(r.req("GET", b, k, nil, nil, nil))
-			v := mb.Live(k)
+			// every third read carries a condition that any stored object meets (changed since a
+			// date before every write; not the ETag of other bytes): it is answered like a plain read
+			var cond [][2]string
 			what := "invariant GET " + b + "/" + k
+			r.invN++
+			switch r.invN % 3 {
+			case 1:
+				cond = s3x.H("If-Modified-Since", "Mon, 01 Jan 1990 00:00:00 GMT")
+				what += " (If-Modified-Since 1990)"
+			case 2:
+				cond = s3x.H("If-None-Match", `"00000000000000000000000000000000"`)
+				what += " (If-None-Match of other bytes)"
+			}
+			resp := r.do(r.req("GET", b, k, nil, cond, nil))
+			v := mb.Live(k)
 			if v == nil {
 				ds = append(ds, expectErr(resp, "GET", 404, "NoSuchKey", what+" (not live)")...)
 				continue
